@@ -31,7 +31,7 @@ func (e c12Ev) String() string {
 
 type c12Flavor struct {
 	Received string `json:"received"` // on | off
-	SentBy   string `json:"sentby"`   // same | different | table-name | unknown-name | true-port
+	SentBy   string `json:"sentby"`   // same | different | table-name | unknown-name | true-port | dns-name | backend-address
 	RPort    bool   `json:"rport"`
 	Backend  string `json:"backend"`                  // udp | tcp
 	Branch   string `json:"branch,omitempty"`         // "" pairwise unrelated | prefix: every branch is a proper prefix of the next one
@@ -74,7 +74,13 @@ func c12Exec(fl c12Flavor, nconn int, hist []c12Ev) (string, string, string) {
 	// the clients' announced addresses must not collide with the universe's listeners: use ports 6000+k
 	conns := make([]*vnet.TCPConn, nconn)
 	for k := range conns {
-		c, err := w.S.TCPDial("127.0.0.1:0", "127.0.0.1:5062")
+		from := "127.0.0.1:0"
+		if fl.SentBy == "backend-address" {
+			// the clients are processes on the host of the first backend, and they announce that backend's own
+			// listening address and port: their responses still belong on the connections they opened
+			from = "127.0.1.1:0"
+		}
+		c, err := w.S.TCPDial(from, "127.0.0.1:5062")
 		if err != nil {
 			panic(err)
 		}
@@ -111,6 +117,8 @@ func c12Exec(fl c12Flavor, nconn int, hist []c12Ev) (string, string, string) {
 			return "uadns.example.net:6000"
 		case "true-port":
 			return conns[k].LocalString()
+		case "backend-address":
+			return "127.0.1.1:7000"
 		}
 		return "127.0.0.1:6000"
 	}
@@ -326,7 +334,7 @@ func c12Run(c *Ctx) {
 	}
 	var flavors []c12Flavor
 	for _, rc := range []string{"on", "off"} {
-		for _, sb := range []string{"same", "different", "table-name", "unknown-name", "true-port", "dns-name"} {
+		for _, sb := range []string{"same", "different", "table-name", "unknown-name", "true-port", "dns-name", "backend-address"} {
 			for _, rp := range []bool{true, false} {
 				for _, be := range []string{"udp", "tcp"} {
 					flavors = append(flavors, c12Flavor{rc, sb, rp, be, "", 0, ""})
